@@ -1,7 +1,7 @@
 (* C14 -- sensors are decoded only from registers that were actually fetched.
    Tables, read commands and the two meter filter limits are GENERATED from /repo on every run. *)
 From Coq Require Import ZArith List Bool String.
-From GW Require Import Prelude PyStr PyFloat Sensors TableChecks TablesGen SensorProofs ETCaps ETCapsProofs TableProofs.
+From GW Require Import Prelude PyStr PyFloat Sensors TableChecks TablesGen SensorProofs ETCaps ETCapsProofs TableProofs ETProg ETGen ETRefine.
 Import ListNotations.
 Open Scope Z_scope.
 
@@ -43,8 +43,14 @@ Theorem C14_meter_window_always_covers : forall two big h,
   forallb (sensor_in_window (meter_window c)) (meter_list (meter_level c)) = true.
 Proof. exact meter_window_always_covers. Qed.
 
+(* the capability model used above IS the current source of ET.read_runtime_data (tools/et2v.py, complete enumeration inside Coq) *)
+Theorem C14_read_runtime_data_is_the_model : forall c e lose, (meter_level c <= 2)%nat ->
+  run_rrd e lose et_read_runtime_data c = read_runtime_data c e lose.
+Proof. exact read_runtime_data_refined. Qed.
+
 Print Assumptions C14_windows_partial.
 Print Assumptions C14_mppt_refuted.
 Print Assumptions C14_variants_are_sublists.
 Print Assumptions C14_no_short_read.
 Print Assumptions C14_meter_window_always_covers.
+Print Assumptions C14_read_runtime_data_is_the_model.
